@@ -67,6 +67,13 @@ structure Cfg where
   /-- `Process.cpu_percent`: `round(_, procDigits)`, `* procFactor` -/
   procFactor : Nat
   procDigits : Nat
+  /-- how `Process.cpu_percent` measures the wall clock between two calls:
+      `false` — it remembers `_timer() * num_cpus` and subtracts two such products
+                (`delta_time = st2 - st1`, the code as found: the two products may use two
+                different CPU counts);
+      `true`  — it remembers the raw `_timer()` and scales the DIFFERENCE by the current
+                `num_cpus` (`delta_time = (st2 - st1) * num_cpus`, the repaired shape) -/
+  procScaleDelta : Bool
   /-- facts with no degree of freedom in the model (checked by `Cfg.Good` only):
       `delta_proc = (pt2.user - pt1.user) + (pt2.system - pt1.system)`; `num_cpus = cpu_count() or 1`;
       `except ZeroDivisionError: return 0.0` in the three places; the `interval < 0` guards;
@@ -362,6 +369,22 @@ def step (e : Env) (s : St) (c : Call) : St × Out :=
           | [] => (s, .starved)
           | r1 :: _ => finish e s c t1 r1 2
 
+/-- the module-level code that runs when `psutil` is imported by thread `tid0`:
+    `try: _last_cpu_times = {tid0: cpu_times()}  except Exception: _last_cpu_times = {}`,
+    the same for `_last_per_cpu_times` with `cpu_times(percpu=True)`, and further down
+    `_last_cpu_times_2 = _last_cpu_times.copy()`, `_last_per_cpu_times_2 = _last_per_cpu_times.copy()`.
+    `r0`, `r1` are what `/proc/stat` contains at those two reads. -/
+def importState (e : Env) (tid0 : Tid) (r0 r1 : Bytes) : St :=
+  let d1 : Tid → Option Stored :=
+    match sample e false r0 with
+    | .ok v => fun t => if t = tid0 then some v else none
+    | .error _ => fun _ => none
+  let d2 : Tid → Option Stored :=
+    match sample e true r1 with
+    | .ok v => fun t => if t = tid0 then some v else none
+    | .error _ => fun _ => none
+  fun fam t => if fam.percpu then d2 t else d1 t
+
 def runAll (e : Env) (s : St) : List Call → St
   | [] => s
   | c :: cs => runAll e (step e s c).1 cs
@@ -414,7 +437,7 @@ def mrun (s : MSt) : List (Tid × MOp) → MSt
 /-! ## `Process.cpu_percent` -/
 
 structure PLast where
-  sys : Rat          -- `_last_sys_cpu_times` (= timer() * num_cpus)
+  sys : Rat          -- `_last_sys_cpu_times` (= `_timer() * num_cpus`, or the raw `_timer()`: `procStamp`)
   user : Rat         -- `_last_proc_cpu_times.user`
   system : Rat       -- `_last_proc_cpu_times.system`
   deriving DecidableEq, Repr
@@ -456,10 +479,14 @@ def PCall.negative (c : PCall) : Bool :=
 
 def procSecs (tck : Nat) (ticks : Nat) : Rat := (ticks : Rat) / (tck : Rat)
 
+/-- what a call remembers as its time stamp: `timer()` = `_timer() * num_cpus` (as found) or the
+    raw `_timer()` (repaired shape) -/
+def procStamp (c : Cfg) (n t : Rat) : Rat := if c.procScaleDelta then t else t * n
+
 /-- the arithmetic after both samples are known -/
 def procFinish (c : Cfg) (n : Rat) (a b : PLast) : Rat :=
   let deltaProc := (b.user - a.user) + (b.system - a.system)
-  let deltaTime := b.sys - a.sys
+  let deltaTime := if c.procScaleDelta then (b.sys - a.sys) * n else b.sys - a.sys
   if deltaTime = 0 then 0                                   -- ZeroDivisionError → 0.0
   else roundN c.procDigits (deltaProc / deltaTime * (c.procFactor : Rat) * n)
 
@@ -470,14 +497,14 @@ def pstep (c : Cfg) (tck : Nat) (s : PSt) (p : PCall) : PSt × POut :=
     if p.blocking then
       match p.timer, p.times with
       | t1 :: t2 :: _, (u1, s1) :: (u2, s2) :: _ =>
-        let a : PLast := ⟨t1 * n, procSecs tck u1, procSecs tck s1⟩
-        let b : PLast := ⟨t2 * n, procSecs tck u2, procSecs tck s2⟩
+        let a : PLast := ⟨procStamp c n t1, procSecs tck u1, procSecs tck s1⟩
+        let b : PLast := ⟨procStamp c n t2, procSecs tck u2, procSecs tck s2⟩
         (s.set p.obj b, .val (procFinish c n a b))
       | _, _ => (s, .starved)
     else
       match p.timer, p.times with
       | t2 :: _, (u2, s2) :: _ =>
-        let b : PLast := ⟨t2 * n, procSecs tck u2, procSecs tck s2⟩
+        let b : PLast := ⟨procStamp c n t2, procSecs tck u2, procSecs tck s2⟩
         match s p.obj with
         | none => (s.set p.obj b, .val 0)
         | some a => (s.set p.obj b, .val (procFinish c n a b))
